@@ -645,7 +645,7 @@ H(prop="C03", name="c03_hole_capture_binds", crate="core-h", module="c03_single"
   functions=["ast_grep_core::matcher::pattern::Pattern::match_node_with_env", "ast_grep_core::match_tree::match_leaf_meta_var", "ast_grep_core::meta_var::MetaVarEnv::insert"],
   assumes=[ST_TS, ST_MAP], shape="FLAT(1)", bounds="hole named / any symbolic; candidate leaf: 5 kinds + ERROR; 5 strictness levels; unwind 8")
 H(prop="C03", name="c03_match_len_terminal", crate="core-h", module="c03_single", features=["hooks", "n4"], timeout=1200, mem_gb=20,
-  decides="one-token patterns: Pattern::get_match_len is Some iff match_node_with_env is Some, and the reported length is the candidate token's own length",
+  decides="one-token patterns: a node that matches (match_node_with_env) has a matched length (get_match_len), and every reported length is the candidate token's own length (never exceeds the node, never splits it)",
   functions=["ast_grep_core::matcher::pattern::Pattern::get_match_len", "ast_grep_core::match_tree::match_end_non_recursive",
              "ast_grep_core::matcher::pattern::Pattern::match_node_with_env"],
   assumes=[ST_TS], shape="FLAT(1)", bounds="goal token: 5 kinds + ERROR, named bit, 2-byte text; candidate leaf: 5 kinds, 2-byte text; 5 strictness levels; unwind 8")
@@ -654,7 +654,7 @@ for _nm, _pat, _tier in (("c01_prefilter_nested_one_token", "call[ call[T1] ] wi
                          ("c01_prefilter_nested_tokens", "call[ call[T1 T2] T3 ] with texts of lengths 4, 2, 3", "thorough")):
     H(prop="C01", name=_nm, crate="core-h", module="c01_prefilter", features=["hooks", "n4"], timeout=1800, mem_gb=16, tier=_tier,
       recursion={"ast_grep_core::matcher::PatternNode::fixed_string_impl": 3},
-      decides="Pattern::fixed_string() of a nested pattern is the longest token whose text the strictness level compares (any token under cst/smart, named tokens only under ast/relaxed -- unnamed pattern tokens can be skipped at any depth --, nothing under signature)",
+      decides="Pattern::fixed_string() of a nested pattern is empty or the text of a token whose text the strictness level compares (any token under cst/smart, named tokens only under ast/relaxed -- unnamed pattern tokens can be skipped at any depth --, nothing under signature); requiring less than the longest such token is accepted",
       functions=["ast_grep_core::matcher::pattern::Pattern::fixed_string", "ast_grep_core::matcher::pattern::PatternNode::fixed_string_impl"],
       shape="TREE", bounds=f"pattern {_pat}, symbolic named bits, all 5 strictness levels; unwind 8, recursion of fixed_string_impl 3 (= the nesting depth; CBMC recursion unwinding assertion on)")
 for _k in (1, 2):
